@@ -1,15 +1,21 @@
 (* Value/LeafTheory.v — theorems of property C10 about the model Value/Leaf.v.
 
-   C10_agree: for every hasher, every datatype and every JSON value of the
-   natural kind for it, hashing the raw value standalone gives exactly the
-   outcome of the leaf path (same value, or the same failure).
-   C10_kind: the entry value built for a literal has the Go kind implied by its
-   datatype, and the Value handed out with a proof hashes to the leaf.
+   agree (C10_agree): for every hasher, every datatype and every JSON value that can
+   sit in a value object (boolean, number, string), hashing the raw value standalone
+   gives exactly the outcome of the leaf path (same value, or the same failure).
+   Since fix 7821fd0 (HashValue prints an integral float64 of a non-double datatype
+   with all its digits, like the JSON-LD processor) this needs no restriction on the
+   magnitude of integers and no special case for -0.
+   kind_and_proof_value (C10_kind): the entry value built for a literal has the Go
+   kind implied by its datatype, and the Value handed out with a proof hashes to the
+   leaf.
+   int_from_str_z_to_string (C10_int_roundtrip): fmt %d followed by
+   big.Rat.SetString / IsInt / Num is the identity on integers, so the common
+   lexical form of an integral number denotes that integer on both paths.
 
-   The float-formatting facts that the proof needs about strconv / json-gold are
-   Section hypotheses (three statements, listed below); everything else —
-   including "fmt %d followed by big.Rat.SetString is the identity on integers"
-   — is proved. *)
+   The only assumed fact about strconv / json-gold is the Section hypothesis
+   `canon_idem` (a canonical double re-parses to a float with the same canonical
+   form), needed for numeric STRINGS under xsd:double. *)
 From Coq Require Import ZArith List String Ascii Bool Lia.
 From GSP Require Import Base.Prelude Value.Time Value.Model Value.Leaf.
 Import ListNotations.
